@@ -12,7 +12,7 @@
 (* stop with the number of the offending line.  Acceptance of the whole    *)
 (* file is the postcondition Accepted (every line was consumed).           *)
 (***************************************************************************)
-EXTENDS PatchOps, Merge7396, Equal, Json, TLC
+EXTENDS PatchOps, Merge7396, Equal, Scanner, JsonText, Json, TLC
 
 CONSTANT TraceFile, Mode       \* Mode: "value" (structural, C01..) | "ordered" (member order and literals, C05)
 
@@ -113,9 +113,30 @@ EqualEv ==
             ELSE IF Ev.got # EqualVerdict(Ev.a, Ev.b) THEN "Equal's verdict is not structural equality"
             ELSE ""
 
+\* one text given to the embedded codec (C16/C17): the scanner automaton and the grammar must agree with each
+\* other and with the observed verdict, and the observed transducer outputs must be the specification's
+ScanEv ==
+  /\ Ev.ev = "scan"
+  /\ UNCHANGED <<doc, opts, copied>> /\ status' = "stopped"
+  /\ LET w == Ev.text
+         v == Valid(w)
+         p == ParseText(w)
+     IN bad' = IF Ev.panic THEN "the codec panicked"
+               ELSE IF v # p.ok THEN "SPEC: scanner automaton and grammar disagree on this text"
+               ELSE IF Ev.valid # v THEN "Valid() disagrees with the RFC 8259 grammar"
+               ELSE IF Ev.unmarshal_ok # v THEN "Unmarshal accepts/rejects differently from the grammar"
+               ELSE IF ~v THEN (IF Ev.compact_ok \/ Ev.indent_ok THEN "Compact/Indent accepted an ill-formed text" ELSE "")
+               ELSE IF ~Ev.compact_ok \/ Ev.compact # Compact(w, FALSE).out THEN "Compact output differs from the specification transducer"
+               ELSE IF ~Ev.indent_ok \/ Ev.indent # Indent(w, <<>>, <<32, 32>>).out THEN "Indent output differs from the specification transducer"
+               ELSE IF Ev.htmlesc # HTMLEscape(w) THEN "HTMLEscape output differs from the specification transducer"
+               ELSE IF Ev.escaped # Compact(w, TRUE).out THEN "compact-with-escaping output differs from the specification transducer"
+               ELSE IF NoDupKeys(p.v) /\ (~Ev.roundtrip_ok \/ ~JEq(Ev.roundtrip, p.v)) THEN "decode then encode does not reproduce the value"   \* duplicate member names: outside the domain
+               ELSE IF p.v.t = "obj" /\ NoDupKeys(p.v) /\ Ev.keys # Keys(p.v) THEN "the key list is not the member names in document order"
+               ELSE ""
+
 TNext == /\ l <= Len(Trace) /\ bad = ""
          /\ l' = l + 1
-         /\ (Reset \/ Op \/ MergeEv \/ CreateEv \/ ComposeEv \/ EqualEv)
+         /\ (Reset \/ Op \/ MergeEv \/ CreateEv \/ ComposeEv \/ EqualEv \/ ScanEv)
 TSpec == TInit /\ [][TNext]_tvars
 
 NoMismatch == bad = ""
